@@ -33,6 +33,19 @@ var c13StmtFrags = []struct{ name, text string }{
 	{"double operator", "a = 1 + * 2;"},
 	{"dangling comparison", "a = b == ;"},
 	{"range without end", "a = 1 .. ;"},
+	{"illegal character for the brace of a foreach", "foreach e in [1, 2] @ b = e; }"},
+	{"closing parenthesis for the brace of a foreach", "foreach e in [1, 2] ) b = e; }"},
+	{"no brace after the iterated expression", "foreach e in [1, 2] b = e; }"},
+	{"decrement without operand as assigned value", "a = --;"},
+	{"increment where the right operand is missing", "a = b + ++;"},
+	{"increment as array element", "a = [1, ++];"},
+	{"increment of a literal", "3++;"},
+	{"increment of an indexed value", "a[0]++;"},
+	{"negated increment", "a = -++;"},
+	{"compound assignment to literal as switch value", "switch (1 += 2) { default { b = 1; } }"},
+	{"compound assignment to literal as callee", "(1 += 2)(3);"},
+	{"compound assignment to literal after a dot", "a.(1 += 2);"},
+	{"compound assignment to literal as switch value with cases", "switch (1 -= 2) { case 1 { b = 1; } }"},
 	{"illegal character as loop variable", "foreach # in [1, 2] { b = 1; }"},
 	{"illegal character as index variable", "foreach #, e in [1, 2] { b = e; }"},
 	{"illegal character as second loop variable", "foreach i, @ in [1, 2] { b = i; }"},
@@ -468,6 +481,19 @@ func c13IllegalAnywhere(c *ev.Ctx) {
 				return
 			}
 			c.Count("illegal_insertions_rejected", 1)
+			// ... and standing in for the token itself (a brace, a keyword, an operand)
+			if k < len(toks) {
+				ch2 := chars[r.Intn(len(chars))]
+				text2 := gast.Join(toks[:k]) + " " + ch2 + " " + gast.Join(toks[k+1:])
+				c.Case(text2, true)
+				if evr, err := eng.New(text2, eng.Options{NoHook: true, NoOptimize: k%2 == 1}); err == nil {
+					o := evr.Exec(map[string]interface{}{})
+					c.Violation(id+"/r", "accepted: illegal character in place of a token", map[string]interface{}{
+						"summary": fmt.Sprintf("Prepare accepted a program in which the illegal character %q stands for token %d (%q); running it gave %s\n  script: %s", ch2, k, toks[k].S, o.Desc(), text2), "script": text2})
+					return
+				}
+				c.Count("illegal_replacements_rejected", 1)
+			}
 		}
 	})
 }
